@@ -350,7 +350,7 @@ def fixed_cases():
 
 
 def gen(rng, tier):
-    n = 1 if tier == "quick" else 12
+    n = 1 if tier == "quick" else 5
     cases = fixed_cases()
     for _ in range(1300 * n):
         cases.append(agg_case(rng, tier))
@@ -415,6 +415,9 @@ ASSUMPTIONS = [
     "Histogram<uint64_t>::Record hands its uint64_t to RecordLong(int64_t): values >= 2^63 arrive as negative numbers; the model and the SPEC take the converted value as the recorded one",
     "`sum is the sum of the values` is decided for a double instrument only when the multiset makes every sub-sum exactly representable "
     "(all values multiples of 2^q, sum of absolute values < 2^(q+53)); otherwise only the model/implementation equality of the rounded sum is checked",
+    "without a view the SPEC checks a point against the boundaries the OpenTelemetry specification fixes (0, 5, 10, 25, 50, 75, 100, 250, 500, 750, 1000, 2500, 5000, 7500, 10000) "
+    "with min/max recorded; theorem default_config_spec re-checks on every run that the defaults read from histogram_aggregation.cc are these",
+    "Diff is exercised through the Aggregation objects only (it is reached in the SDK by observable instruments, which are C17's subject)",
     "one histogram instrument per MeterProvider, at most 3 attribute sets, readers registered before the first measurement; the reader model is per attribute set "
     "(projection of the history onto that set): independence of series is C08's subject",
 ]
